@@ -549,6 +549,9 @@ func shorthandProbes(ecoName string, b base3, r *rand.Rand) []string {
 			out = append(out, j3(x, y, z)+"-alpha.1", j3(x, y, z)+"-alpha.2", j3(x, y, z)+"-alpha.3", j3(x, y, z)+"-beta", j3(x, y, z)+"-rc.1", j3(x, y, z)+"-rc.2")
 		case "gem":
 			out = append(out, b.str()+"1", j3(x, y, z)+".rc2", j3(x, y, z)+".rc1", j3(x, y, z)+".beta")
+			// hyphen spellings ('-' reads as ".pre.") with fewer numeric segments than the base, next to their dotted equals
+			out = append(out, fmt.Sprintf("%d.%d-1", x, y), fmt.Sprintf("%d.%d.pre.1", x, y), fmt.Sprintf("%d.%d.pre1", x, y), fmt.Sprintf("%d-1", x), fmt.Sprintf("%d.pre.1", x),
+				fmt.Sprintf("%d.%d-1", x, y+1), fmt.Sprintf("%d.%d.%d-1", x, y, z), fmt.Sprintf("%d.%d.%d-9", x, y, z))
 		case "pypi":
 			out = append(out, b.str(), fmt.Sprintf("%d.%d", x, y+1))
 		}
